@@ -944,10 +944,32 @@ def intersect1d(ar1, ar2, assume_unique=False, return_indices=False):
 
 
 def histogram(a, bins=10, range=None, density=None, weights=None):
-    if isinstance(bins, int) or weights is not None or range is not None or density:
-        raise ModelUnsupported("histogram: only explicit bin edges are modelled")
-    edges = _as_list(bins) if not isinstance(bins, NDArray) else list(bins._d)
+    if weights is not None or density:
+        raise ModelUnsupported("histogram: weights / density are not modelled")
     vals = asarray(a)._d
+    if isinstance(bins, (int, _np.integer)) and not isinstance(bins, bool):
+        # equal-width bins: n+1 edges from range[0] to range[1] (documented: range defaults to (a.min(), a.max()), and (x-0.5, x+0.5) when both coincide)
+        n = int(bins)
+        if n < 1:
+            raise ValueError("`bins` must be positive, when an integer")
+        if range is None:
+            raise ModelUnsupported("histogram with an integer number of bins and no range")
+        lo_, hi_ = range
+        if not (lo_ <= hi_):
+            raise ValueError("max must be larger than min in range parameter.")
+        if lo_ == hi_:
+            lo_, hi_ = lo_ - 0.5, hi_ + 0.5
+        edges = [lo_ + (hi_ - lo_) * k / n for k in builtins_range(n)] + [hi_]
+        vals = [v for v in vals]
+        inside = [so.b_and(lo_ <= v, v <= hi_) for v in vals]     # values outside the range are ignored
+        counts = []
+        for k in builtins_range(n):
+            last = k == n - 1
+            counts.append(so.count_true([so.b_and(ok_, edges[k] <= v, (v <= edges[k + 1]) if last else (v < edges[k + 1])) for v, ok_ in zip(vals, inside)]))
+        return NDArray(counts, (n,), "int"), array(edges)
+    if range is not None:
+        raise ModelUnsupported("histogram: explicit edges together with range")
+    edges = _as_list(bins) if not isinstance(bins, NDArray) else list(bins._d)
     nb = len(edges) - 1
     if nb < 1:
         raise ValueError("`bins` must have at least 2 edges")
